@@ -534,6 +534,11 @@ class Fn:
             a, b, t = self.unify(a, ta, b, tb)
             return (f"(if {c_} then {a} else {b})", t)
         if isinstance(node, ast.Tuple):
+            hook = self.t.get("tuple_hook")
+            if hook is not None:
+                r_ = hook(self, node, env)
+                if r_ is not None:
+                    return r_
             parts = [self.expr(x, env) for x in node.elts]
             return ("(" + ", ".join(p[0] for p in parts) + ")", "Tuple:" + ",".join(p[1] for p in parts))
         if isinstance(node, ast.List):
@@ -958,6 +963,19 @@ class Fn:
             a, b, _ = self.unify(a, ta, b, tb)
             f = {ast.Lt: "lt", ast.LtE: "le", ast.Gt: "gt", ast.GtE: "ge", ast.Eq: "eq", ast.NotEq: "ne"}[type(op)]
             return f"(Q.{f} {par(a)} {par(b)})"
+        if isinstance(op, (ast.Lt, ast.LtE, ast.Gt, ast.GtE)) and ((ta == "Opt:Int" and is_int_ty(tb)) or (tb == "Opt:Int" and is_int_ty(ta))
+                                                                   or (ta == "Opt:Int" and tb == "Opt:Int")):
+            # ordering with an int-or-None value: only reached behind its `is not None` test (None < 1 is a TypeError in Python;
+            # totalised to False here)
+            xa = "x" if ta == "Opt:Int" else as_int(a, ta)
+            yb = "y" if tb == "Opt:Int" else as_int(b, tb)
+            sym = {ast.Lt: "<", ast.LtE: "≤", ast.Gt: ">", ast.GtE: "≥"}[type(op)]
+            inner = f"(decide ({xa} {sym} {yb}))"
+            if tb == "Opt:Int":
+                inner = f"(Option.elim {par(b)} false (fun y => {inner}))"
+            if ta == "Opt:Int":
+                inner = f"(Option.elim {par(a)} false (fun x => {inner}))"
+            return inner
         if ta == "Bool" and is_int_ty(tb) or tb == "Bool" and is_int_ty(ta):
             # Python compares bool and int numerically (True == 1)
             conv = lambda e, t: f"(if {e} then (1 : Int) else 0)" if t == "Bool" else as_int(e, t)  # noqa: E731
@@ -1503,7 +1521,14 @@ class Fn:
                         proj = tv + ".2" * i + (".1" if i < n - 1 else "")
                         if x.id == "_":
                             continue
-                        out += f"{pad}let {self.lean_name(x.id)} := {proj}\n"
+                        want_ = self.t.get("var_types", {}).get(x.id)
+                        if want_ and want_ != ty:
+                            proj = self.coerce_val(proj, ty, want_)
+                            ty = want_
+                        if ty == "Lit":
+                            ty = "Nat"
+                        ann_ = f" : {self.lean_ty(ty)}" if ty in ("Int", "Nat") else ""
+                        out += f"{pad}let {self.lean_name(x.id)}{ann_} := {proj}\n"
                         env2[x.id] = (self.lean_name(x.id), ty)
                         self.let_bound.add(x.id)
                     return out + nxt(env2, ind)
@@ -1556,8 +1581,10 @@ class Fn:
                 t = self.t.get("opt_types", {}).get(name, t)
                 if t != "Opt:_":
                     e = f"({e} : {self.lean_ty(t)})"
-            if isinstance(s, ast.AnnAssign) and t == "List:_":
+            if t == "List:_":
                 t = self.t.get("list_types", {}).get(name, t)
+                if t != "List:_" and not isinstance(s, ast.AnnAssign):
+                    e = f"({e} : {self.lean_ty(t)})"
             if t.startswith(("Unpacked:", "StructOf:")):
                 env2 = dict(env)
                 env2[name] = (e, t)
@@ -1588,6 +1615,20 @@ class Fn:
                     e = self.coerce(c.args[0], env, lt[5:])
                 env2[name] = (lname, lt if lt != "List:_" else "List:" + t)
                 return f"{pad}let {lname} := {env[name][0]} ++ [{e}]\n" + nxt(env2, ind)
+            # xs.extend([v] * n): n copies of v appended
+            if (f and f.endswith(".extend") and len(c.args) == 1 and not c.keywords and f[:-7] in env and env[f[:-7]] is not None
+                    and env[f[:-7]][1].startswith("List:") and isinstance(c.args[0], ast.BinOp) and isinstance(c.args[0].op, ast.Mult)
+                    and isinstance(c.args[0].left, ast.List) and len(c.args[0].left.elts) == 1):
+                name = f[:-7]
+                lt = env[name][1]
+                ve = self.coerce(c.args[0].left.elts[0], env, lt[5:])
+                ne, nt = self.expr(c.args[0].right, env)
+                if not is_nat_ty(nt):
+                    raise NotTranslatable("repetition count of a type that may be negative")
+                lname = self.lean_name(name)
+                env2 = dict(env)
+                env2[name] = (lname, lt)
+                return f"{pad}let {lname} := {env[name][0]} ++ List.replicate {par(ne)} {par(ve)}\n" + nxt(env2, ind)
             # inlined helper
             if f in self.helpers:
                 h = self.helpers[f]
@@ -1729,7 +1770,7 @@ class Fn:
                     visit(st.orelse, local_helpers)
                 elif isinstance(st, ast.Expr) and isinstance(st.value, ast.Call):
                     f = dotted(st.value.func)
-                    if f and f.endswith(".append") and f[:-7] not in out:
+                    if f and f.endswith((".append", ".extend")) and f[:-7] not in out:
                         out.append(f[:-7])
                     elif f in self.helpers:
                         params = {a.arg for a in self.helpers[f].args.args}
@@ -1878,7 +1919,8 @@ class Fn:
                 and env[tt.left.id][1].startswith("Opt:") and env[tt.left.id][1] != "Opt:_"):
             x = tt.left.id
             none_branch, some_branch = (s.body, s.orelse) if isinstance(tt.ops[0], ast.Is) else (s.orelse, s.body)
-            if not self.falls(none_branch):
+            if not self.falls(none_branch) or not rest:
+                # (when nothing follows the `if` in this block, letting both branches run into the continuation duplicates little)
                 xe, xt = env[x]
                 env_some = dict(env)
                 env_some[x] = (self.lean_name(x), xt[4:])
@@ -2074,7 +2116,7 @@ class Fn:
                         assigned.append(d)
             if self.t.get("sort_carried") and isinstance(n, ast.Expr) and isinstance(n.value, ast.Call):
                 f_ = dotted(n.value.func)
-                if f_ and f_.endswith(".append") and f_[:-7] in env and f_[:-7] not in assigned:
+                if f_ and f_.endswith((".append", ".extend")) and f_[:-7] in env and f_[:-7] not in assigned:
                     assigned.append(f_[:-7])
             if isinstance(n, ast.For) and n is not s:
                 raise NotTranslatable("nested for loop")
@@ -2087,8 +2129,7 @@ class Fn:
                 if isinstance(st, ast.If) and (direct_break(st.body) or direct_break(st.orelse)):
                     return True
             return False
-        if direct_break(s.body):
-            raise NotTranslatable("break in a general for loop")
+        has_break = direct_break(s.body)
         aux = f"{self.t['lean']}_loop{len(self.aux)}"
         params = list(self.t["params"]) + self.outer_locals(env, assigned)
         psig = " ".join(f"({p} : {ty})" for p, ty in params)
@@ -2120,10 +2161,22 @@ class Fn:
                 return e3
             return "  " * ind3 + self.wrap_ret(f"({aux} {pnames} xs " + " ".join(par(back(v, ty)) for v, (_, ty) in zip(assigned, carried)) + ")")
 
+        def after_break(env3, ind3):
+            # `break`: what follows the loop, with the loop-carried variables as they are now
+            env_b = dict(env_nil)
+            for v in assigned:
+                env_b[v] = env3[v]
+            return self.block(rest, env_b, cont, ind3)
+
         saved_cont = self.loop_cont if hasattr(self, "loop_cont") else None
+        saved_break = getattr(self, "break_cont", None)
         saved_depth, saved_ret = self.join_depth, getattr(self, "cur_ret", None)
         self.loop_cont, self.join_depth, self.cur_ret = again, 0, None
-        cons_case = self.block(list(s.body), env_c, again, 2)
+        self.break_cont = after_break if has_break else None
+        try:
+            cons_case = self.block(list(s.body), env_c, again, 2)
+        finally:
+            self.break_cont = saved_break
         self.loop_cont, self.join_depth, self.cur_ret = saved_cont, saved_depth, saved_ret
         cs = " ".join(f"({n} : {lean_ty(t)})" for n, t in carried)
         self.aux.append(
